@@ -1,8 +1,8 @@
 #!/bin/bash
-# run every quick (or VERIF_TIER) check on the current tree; summary at the end
+# run every quick (or given tier) check on the current tree (PROPS="C01 C05" selects); one summary line per check
 cd "$(dirname "$0")"
 tier=${1:-quick}
-for p in C01 C02 C03 C04 C05 C06 C07 C08 C09 C10 C11 C12 C13 C14 C15 C16 C17 C18 C19 C20; do
+for p in ${PROPS:-C01 C02 C03 C04 C05 C06 C07 C08 C09 C10 C11 C12 C13 C14 C15 C16 C17 C18 C19 C20}; do
   s=$(date +%s)
   ./check $p --tier $tier > /tmp/all_$p.out 2>&1; rc=$?
   e=$(date +%s)
